@@ -321,6 +321,34 @@ PLANS["C06"]["drive"] = PLANS["C06"]["drive"] + [dict(name="rewards-slash", menu
 PLANS["C02"]["drive"] = [dict(name="rewards-slash", menu=MENU_REWARDS_SLASH, runs=(150, 4000), len=40, consts=dict(MaxBatch=8, NV=2, InitVals=[1, 2]))]
 PLANS["C09"]["drive"] = PLANS["C09"]["drive"] + [dict(name="stale", menu=MENU_STALE, runs=(150, 4000), len=40, consts=dict(MaxBatch=8))]
 
+# the hub flow over three validators and three users, with the registry changing underneath (stake spread over several
+# validators, several unbonding entries per batch, one validator slashed among several, removal while batches are in flight)
+MENU_WIDE = menu(MENU_HUB, items={"add_validator": 2, "remove_validator": 2, "redelegations": 1, "slash": 4, "slash_unb": 3, "set_ext": 0, "accrue": 3, "ugi": 3},
+                 amax=300, vary={"fee": [[0, 500000000, 0], [0, 5000000, 0], [0, 0, 0]], "thr": [[1, 0, 0], [0, 950000000, 0]], "keeper_rate": [[0, 50000000, 0], [0, 0, 0]],
+                                 "periods": [[2, 5], [3, 3], [1, 7]], "init_vals": [[1, 2, 3], [1, 2], [1, 3]]})
+
+
+def wide_drive(runs=(60, 2000)):
+    return dict(name="hubflow-wide", menu=MENU_WIDE, runs=runs, len=45, consts=dict(MaxBatch=8, NV=3, InitVals=[1, 2, 3], Users=["usr1", "usr2", "usr3"]))
+
+
+for _p in ("C01", "C02", "C04", "C06", "C08"):
+    PLANS[_p]["drive"] = PLANS[_p]["drive"] + [wide_drive()]
+
+# many batches in one history: more than ten undelegations (the wait list and the history are keyed by batch id; storage
+# iterates keys in byte order, so ids with a different number of digits do not iterate numerically), claims spread over them
+MENU_MARATHON = {"items": {"bond": 3, "bond_st": 3, "unbond_b": 8, "unbond_st": 6, "advance": 10, "withdraw": 6, "slash_unb": 1, "slash": 1, "transfer_b": 1},
+                 "amax": 400, "dts": [3, 4, 6, 8], "slash_div": [2, 10], "probes": ["withdraw", "unbond_b"], "probe_every": 6,
+                 "vary": {"fee": [[0, 5000000, 0], [0, 0, 0]], "thr": [[1, 0, 0]], "periods": [[2, 5], [3, 8], [2, 12]]}}
+
+
+def marathon_drive(runs=(25, 800)):
+    return dict(name="marathon", menu=MENU_MARATHON, runs=runs, len=170, consts=dict(MaxBatch=14))
+
+
+for _p in ("C01", "C07", "C08", "C09"):
+    PLANS[_p]["drive"] = PLANS[_p]["drive"] + [marathon_drive()]
+
 # the airdrop flow (ClaimAirdrop -> airdrop contract -> SwapHook -> token Send -> pair -> reward contract), with stub airdrop contracts
 AIRDROP_ITEMS = {"set_airdrop": 3, "airdrop_cfg": 2, "airdrop_claim": 4, "airdrop_fab": 3, "ugi_hooks": 4, "index_update": 2, "claim": 2}
 PLANS["C19"]["mc"].append(hf_mc("airdrop", extra=dict(Features=["core", "reward", "airdrop"], Amts=[10], RewardAmts=[40, 100], Dts=[3]), depth=(3, 4)))
